@@ -247,6 +247,11 @@ impl<R: Round> Context<R> {
         // - such that x*2^s is close to but larger than 1 (and x*2^s < 2)
         let guard_digits = (self.precision.log2_est() / B.log2_est()) as usize + 2;
         let mut work_precision = self.precision + guard_digits + one_plus as usize;
+        // The operand must not lose digits before the reduction: for an operand next to 1 (or to -1
+        // for ln_1p) with more digits than the target precision, these are the digits that matter.
+        let operand_digits = x.digits();
+        // (one more digit for the scaling by 2 of an operand just below 1)
+        work_precision = work_precision.max(operand_digits + 1 + one_plus as usize);
         let context = Context::<R>::new(work_precision);
         let x = FBig::new(context.repr_round_ref(x).value(), context);
 
@@ -275,7 +280,8 @@ impl<R: Round> Context<R> {
         if s < 0 || x_scaled.repr.sign() == Sign::Negative {
             // when s or x_scaled is negative, the final addition is actually a subtraction,
             // therefore we need to double the precision to get the correct result
-            work_precision += self.precision;
+            // (the cancellation can be as deep as the operand is long)
+            work_precision += self.precision.max(operand_digits);
             x_scaled.context.precision = work_precision;
         };
         let work_context = Context::new(work_precision);
